@@ -4,7 +4,7 @@ From Coq Require Import List NArith ZArith String Bool.
 From GQL Require Import Exec.Syntax Validate.VSyntax Validate.Overlap Validate.OverlapSpec Validate.Rules
      Exec.Exec Proofs.ValidateOverlap Proofs.ValidateRules Proofs.ValidateMerge Proofs.ValidateMemo Proofs.ValidateInputFields Proofs.ValidateArgs Proofs.ValidateCycles Proofs.ValidateUnused Proofs.ValidateMemoHard Proofs.ValidateL1 Validate.All Proofs.ValidateAll Proofs.ValidateCyclesComplete
      Validate.OverlapWf Proofs.ValidateReflect Proofs.ValidateReflectClose Proofs.ValidateFuel Proofs.ValidateDecide
-     Proofs.ValidateWf Proofs.ValidateRank Proofs.ValidateWfDoc Proofs.ValidateClosure Proofs.ValidateRulesDecl Proofs.ValidateLiteral Proofs.ValidateWitness Proofs.ValidateOffending.
+     Proofs.ValidateWf Proofs.ValidateRank Proofs.ValidateWfDoc Proofs.ValidateClosure Proofs.ValidateRulesDecl Proofs.ValidateLiteral Proofs.ValidateWitness Proofs.ValidateOffending Proofs.ValidateFuelMono Proofs.ValidateTermination.
 Import ListNotations.
 Open Scope string_scope.
 
@@ -477,6 +477,57 @@ Theorem C02_accept_iff : forall fuel S W,
 Proof. exact accept_iff. Qed.
 Print Assumptions C02_accept_iff.
 
+(* ---- termination of the validator's model as a whole ----
+   Only the overlap rule's model takes fuel.  The other recursive models are structural
+   (literal validity on nested values, the TypeInfo walk, NoUnusedFragments / variable usages
+   via closures of |fragments| + 1 rounds: C02_closure_reaches_fixpoint) or carry an internal
+   fuel that is proved never to run out (NoFragmentCycles' detect: C02_cycles_fuel_irrelevant).
+   vfuel W = max 200 (fuel_of (erase W)) is computable and polynomial: 3 + 6 * ((|fragments| + 1)
+   * (depth + 1) + depth). *)
+
+(* The overlap model: once a run completes within its fuel, every larger fuel gives the same
+   conflicts and completes too -- memoised or not, cyclic documents included. *)
+Theorem C02_overlap_fuel_irrelevant : forall S D memo f f', (f <= f')%nat ->
+  run_complete S D memo f = true ->
+  run_overlap S D memo f' = run_overlap S D memo f /\ run_complete S D memo f' = true.
+Proof. exact run_fuel_mono. Qed.
+Print Assumptions C02_overlap_fuel_irrelevant.
+
+(* Acyclic documents (decidable test ranked_b): from vfuel on, the validator's model returns one
+   fixed list and the overlap model never runs out of fuel. *)
+Theorem C02_validate_fuel_sufficient : forall S W fuel,
+  ranked_b (erase W) = true -> (vfuel W <= fuel)%nat ->
+  validate_model fuel S W = validate_model (vfuel W) S W /\ run_complete S (erase W) true fuel = true.
+Proof. exact validate_fuel_sufficient. Qed.
+Print Assumptions C02_validate_fuel_sufficient.
+
+(* Any document, cyclic ones included (partial: the hypothesis is that the memoised overlap model
+   completes at some fuel f -- it terminates there through its visited sets, but a static bound
+   on its recursion depth in terms of the number of memo entries is not proved; the runner
+   evaluates run_complete on every case): from f on, the same list and no out-of-fuel. *)
+Theorem C02_validate_fuel_sufficient_cyclic_partial : forall S W f fuel,
+  run_complete S (erase W) true f = true -> (f <= fuel)%nat ->
+  validate_model fuel S W = validate_model f S W /\ run_complete S (erase W) true fuel = true.
+Proof. exact validate_fuel_stable. Qed.
+Print Assumptions C02_validate_fuel_sufficient_cyclic_partial.
+
+(* More fuel, same verdict -- for every schema and every document: an acyclic document by
+   C02_validate_fuel_sufficient, a cyclic one because NoFragmentCycles (or UniqueFragmentNames)
+   rejects it whatever the overlap model does. *)
+Theorem C02_validate_fuel_irrelevant : forall S W fuel fuel',
+  (vfuel W <= fuel)%nat -> (vfuel W <= fuel')%nat ->
+  (validate_model fuel S W = [] <-> validate_model fuel' S W = []).
+Proof. exact validate_fuel_irrelevant. Qed.
+Print Assumptions C02_validate_fuel_irrelevant.
+
+(* NoFragmentCycles: the depth-first search with any fuel of at least |fragments| + 1 is the
+   rule's model (which uses exactly |fragments| + 1): the search never exhausts its fuel, every
+   recursive call descends into a definition name not visited before. *)
+Theorem C02_cycles_fuel_irrelevant : forall W n, (Datatypes.S (List.length (w_frags W)) <= n)%nat ->
+  cycles_with_fuel W n = rule_no_fragment_cycles W.
+Proof. exact cycles_fuel_irrelevant. Qed.
+Print Assumptions C02_cycles_fuel_irrelevant.
+
 (* ---- non-vacuity ---- *)
 Definition exS : schema :=
   {| s_types := [("String", TScalar SString);
@@ -522,6 +573,24 @@ Example C02_nonvacuous_accept :
   ids_ok (erase (exW "b")) = true /\
   Nat.leb (fuel_of (erase (exW "b"))) 50 = true /\ validate_model 50 exS (exW "b") = [2%N].
 Proof. repeat split; vm_compute; reflexivity. Qed.
+
+(* a cyclic document: { ...F } fragment F on Q { a ...G } fragment G on Q { ...F }; the memoised
+   overlap model completes (visited sets), the verdict does not depend on the fuel *)
+Definition exWcyc : wdoc :=
+  {| w_ops := [{| wo_id := 0; wo_kind := OpQuery; wo_name := None; wo_vars := []; wo_dirs := []; wo_ssid := 0;
+                  wo_sel := [WSpread 2 5 "F" []] |}];
+     w_frags := [{| wf_id := 9; wf_nid := 18; wf_name := "F"; wf_tcid := 23; wf_cond := "Q"; wf_dirs := [];
+                    wf_ssid := 25; wf_sel := [WField 27 None "a" [] [] 0 []; WSpread 29 32 "G" []] |};
+                 {| wf_id := 36; wf_nid := 45; wf_name := "G"; wf_tcid := 50; wf_cond := "Q"; wf_dirs := [];
+                    wf_ssid := 52; wf_sel := [WSpread 54 57 "F" []] |}] |}.
+Example C02_nonvacuous_termination :
+  ranked_b (erase exWcyc) = false /\ vfuel exWcyc = 200%nat /\
+  run_complete exS (erase exWcyc) true (vfuel exWcyc) = true /\
+  validate_model (vfuel exWcyc) exS exWcyc = validate_model 1000 exS exWcyc /\
+  validate_model (vfuel exWcyc) exS exWcyc <> [] /\
+  cycles_with_fuel exWcyc 50 = rule_no_fragment_cycles exWcyc /\ rule_no_fragment_cycles exWcyc <> [] /\
+  ranked_b (erase (exW "a")) = true /\ validate_model (vfuel (exW "a")) exS (exW "a") = [].
+Proof. repeat split; try (vm_compute; reflexivity); vm_compute; discriminate. Qed.
 
 Example C02_nonvacuous_rules :
   rule_lone_anonymous {| w_ops := [ {| wo_id := 0; wo_kind := OpQuery; wo_name := None; wo_vars := [];
